@@ -64,6 +64,12 @@ type cfgT struct {
 	NoCancelCheck bool   `json:",omitempty"` // router.WithoutCancellationCheck()
 	Observer      bool   `json:",omitempty"` // version.WithObserver with all four callbacks
 	ObsPanic      string `json:",omitempty"` // this callback panics: D OnDetected, M OnMissing, I OnInvalid, U OnDeprecatedUse
+	// LCLate: the per-version lifecycles (r.Version(v, opts…)) are configured AFTER the routes — and after the explicit
+	// Warmup() when there is one —, still before the first request: same outcome
+	LCLate bool `json:",omitempty"`
+	// an option given twice: the earlier WithValidVersions / WithDefault is replaced by the final one (Valid / Default)
+	ValidFirst   []string `json:",omitempty"`
+	DefaultFirst string   `json:",omitempty"`
 	// Tick != 0: the injected clock ADVANCES — the first reading is Now, every later one Now+Tick seconds. The answer
 	// must be the one a constant clock gives at one of the two instants (see observe)
 	Tick int64 `json:",omitempty"`
@@ -142,6 +148,12 @@ func build(k caseT) (r *router.Router, err error) {
 			vo = append(vo, version.WithCustomDetection(func(req *http.Request) string { return req.Header.Get(name) }))
 		}
 	}
+	if len(k.C.ValidFirst) > 0 {
+		vo = append(vo, version.WithValidVersions(k.C.ValidFirst...))
+	}
+	if k.C.DefaultFirst != "" {
+		vo = append(vo, version.WithDefault(k.C.DefaultFirst))
+	}
 	vo = append(vo, version.WithDefault(k.C.Default))
 	if len(k.C.Valid) > 0 {
 		vo = append(vo, version.WithValidVersions(k.C.Valid...))
@@ -198,18 +210,23 @@ func build(k caseT) (r *router.Router, err error) {
 			return nil, err
 		}
 	}
-	for _, lc := range k.C.LCs {
-		var lo []version.LifecycleOption
-		if lc.Deprecated {
-			lo = append(lo, version.Deprecated())
+	lifecycles := func() {
+		for _, lc := range k.C.LCs {
+			var lo []version.LifecycleOption
+			if lc.Deprecated {
+				lo = append(lo, version.Deprecated())
+			}
+			if lc.HasSunset {
+				lo = append(lo, version.Sunset(lc.time()))
+			}
+			if lc.Migration != "" {
+				lo = append(lo, version.MigrationDocs(lc.Migration))
+			}
+			r.Version(lc.Ver, lo...)
 		}
-		if lc.HasSunset {
-			lo = append(lo, version.Sunset(lc.time()))
-		}
-		if lc.Migration != "" {
-			lo = append(lo, version.MigrationDocs(lc.Migration))
-		}
-		r.Version(lc.Ver, lo...)
+	}
+	if !k.C.LCLate {
+		lifecycles()
 	}
 	for ri, rt := range k.R {
 		rt := rt
@@ -243,6 +260,12 @@ func build(k caseT) (r *router.Router, err error) {
 		default:
 			r.GET(rt.Path, h)
 		}
+	}
+	if k.C.LCLate {
+		if k.C.WarmupAfter > 0 && k.C.WarmupAfter >= len(k.R) {
+			r.Warmup()
+		}
+		lifecycles()
 	}
 	return r, nil
 }
@@ -462,6 +485,18 @@ func emit(id string, k caseT, st *hx.Stats) (string, bool) {
 		}
 		if k.C.Observer || k.C.ObsPanic != "" {
 			st.Count("observer_configured")
+		}
+		if len(k.C.ValidFirst) > 0 {
+			st.Count("valid_versions_given_twice")
+		}
+		if k.C.LCLate {
+			st.Count("lifecycles_configured_after_routes")
+			if k.C.WarmupAfter > 0 {
+				st.Count("lifecycles_configured_after_warmup")
+			}
+		}
+		if k.C.DefaultFirst != "" {
+			st.Count("default_given_twice")
 		}
 	}
 	if o.panicked && o.obsFired {
@@ -987,6 +1022,22 @@ func genCase(r *hx.Rand) caseT {
 	if r.Chance(1, 6) {
 		c.Observer = true
 	}
+	if len(c.Valid) > 0 && r.Chance(1, 5) { // an earlier, different valid list (replaced): its versions must not count
+		for _, v := range verPool {
+			if !contains(c.Valid, v) || r.Chance(1, 3) {
+				c.ValidFirst = append(c.ValidFirst, v)
+			}
+		}
+	}
+	if r.Chance(1, 8) {
+		c.DefaultFirst = hx.Pick(r, verPool)
+	}
+	if len(c.LCs) > 0 && r.Chance(1, 4) {
+		c.LCLate = true
+		if c.WarmupAfter == 0 && r.Chance(1, 2) {
+			c.WarmupAfter = len(k.R) // Warmup() after ALL routes, then the lifecycles
+		}
+	}
 	if r.Chance(1, 10) {
 		c.ObsPanic = hx.Pick(r, []string{"D", "D", "M", "I", "U"})
 	}
@@ -1007,7 +1058,7 @@ func genCase(r *hx.Rand) caseT {
 	if r.Chance(1, 10) {
 		k.Q.Cancelled = true
 	}
-	if c.WarmupAfter > 0 && r.Chance(2, 3) { // mostly ask for a route registered after the warm-up
+	if c.WarmupAfter > 0 && c.WarmupAfter < len(k.R) && r.Chance(2, 3) { // mostly ask for a route registered after the warm-up
 		rt := k.R[r.Range(c.WarmupAfter, len(k.R)-1)]
 		keep := k.Q
 		k.Q = genReq(r, &k)
